@@ -57,6 +57,207 @@ type evaluator struct {
 	spawnN  atomic.Int64
 	cacheMu sync.Mutex
 	cache   map[string]*evalResult // canon|style
+
+	freshMu  sync.Mutex
+	fresh    map[string]*freshEntry // canon|style -> what a fresh process generates for the type alone
+	freshSem chan struct{}
+	histMu   sync.Mutex
+	hist     []batchFinding // batch verdicts that a fresh process did not reproduce
+
+	// noRecheck: Evaluate leaves failing batch verdicts as they are (the caller confirms the ones it
+	// uses with Alone) - the delta-debugging rounds judge thousands of candidates and use one per round.
+	noRecheck bool
+	laneOnce  sync.Once
+	lanes     chan int
+	aloneMu   sync.Mutex
+	alone     map[string]*evalResult
+}
+
+// takeLane hands out the number of a free child lane (returned through ev.lanes).
+func (ev *evaluator) takeLane() int {
+	ev.laneOnce.Do(func() {
+		ev.lanes = make(chan int, 64)
+		for i := 0; i < 64; i++ {
+			ev.lanes <- i
+		}
+	})
+	return <-ev.lanes
+}
+
+// Alone returns the verdict on the document a fresh process generates for the type alone.
+func (ev *evaluator) Alone(spec *TSpec, style string) *evalResult {
+	k := canon(spec) + "|" + style
+	ev.aloneMu.Lock()
+	if ev.alone == nil {
+		ev.alone = map[string]*evalResult{}
+	}
+	if res, ok := ev.alone[k]; ok {
+		ev.aloneMu.Unlock()
+		return res
+	}
+	ev.aloneMu.Unlock()
+	fg := ev.Fresh(spec, style)
+	res, ask := fromGen("alone", style, fg, ev.values(spec))
+	if ask {
+		if f := ev.judge(res); f != "" {
+			ev.r.Fatal("%s", f)
+		}
+	}
+	ev.aloneMu.Lock()
+	ev.alone[k] = res
+	ev.aloneMu.Unlock()
+	return res
+}
+
+type freshEntry struct {
+	once sync.Once
+	out  *genOut
+}
+
+// batchFinding is a failing verdict on a document generated in a batch child (many types one after
+// the other in one process) that differs from what a fresh process generates for the same type alone.
+type batchFinding struct {
+	Spec   TSpec
+	Style  string
+	Batch  *evalResult // the failing verdict on the batch document
+	Alone  *evalResult // the verdict on the document of the fresh process
+	Before []TSpec     // the types the batch child had generated before
+}
+
+// Fresh returns what a fresh process generates for (type, style) with nothing generated before.
+func (ev *evaluator) Fresh(spec *TSpec, style string) *genOut {
+	k := canon(spec) + "|" + style
+	ev.freshMu.Lock()
+	if ev.fresh == nil {
+		ev.fresh = map[string]*freshEntry{}
+		ev.freshSem = make(chan struct{}, 8)
+	}
+	e := ev.fresh[k]
+	if e == nil {
+		e = &freshEntry{}
+		ev.fresh[k] = e
+	}
+	ev.freshMu.Unlock()
+	e.once.Do(func() {
+		ev.freshSem <- struct{}{}
+		defer func() { <-ev.freshSem }()
+		ev.r.Count("fresh_process_generations", 1)
+		e.out = ev.runGenChunk([]genCase{{ID: "fresh", Spec: *spec, Styles: []string{style}}}, envInt("C18_CONFIRM_TIMEOUT_S", 60))[pairKey("fresh", style)]
+		if e.out == nil {
+			e.out = &genOut{Incon: "no outcome from the fresh generator process"}
+		} else if e.out.Watchdog {
+			e.out = &genOut{Incon: "generation watchdog fired in the fresh generator process"}
+		}
+	})
+	return e.out
+}
+
+// sameOutcome reports whether two generator outcomes are the same observation (documents are compared
+// as JSON values, $defs names up to renaming).
+func sameOutcome(a, b *genOut) bool {
+	switch {
+	case a.Schema != nil && b.Schema != nil:
+		na, _ := normDoc(a.Schema)
+		nb, _ := normDoc(b.Schema)
+		return na == nb
+	case a.Schema != nil || b.Schema != nil:
+		return false
+	}
+	return (a.Panic != "") == (b.Panic != "") && (a.Crash != "") == (b.Crash != "") && (a.MarshalErr != "") == (b.MarshalErr != "")
+}
+
+// valueSet holds the generated values of one type.
+type valueSet struct{ v0, v1, deep populated }
+
+func (ev *evaluator) values(spec *TSpec) *valueSet {
+	rt, berr := buildType(spec)
+	if berr != "" {
+		ev.r.Fatal("cannot build type %s: %s", goString(spec), berr)
+	}
+	vs := &valueSet{populate(rt, 0, 2), populate(rt, 1, 2), populate(rt, 0, 3)}
+	if vs.v0.Err != "" || vs.v1.Err != "" || vs.deep.Err != "" {
+		ev.r.Fatal("encoding/json cannot encode the populated value of %s: %s %s", goString(spec), vs.v0.Err, vs.v1.Err)
+	}
+	return vs
+}
+
+// fromGen turns a generator outcome into a result; ask reports that a document was obtained and the
+// oracle has to be asked.
+func fromGen(id, style string, g *genOut, vs *valueSet) (res *evalResult, ask bool) {
+	res = &evalResult{ID: id, Style: style, Fails: map[string]string{}, Instances: [][]byte{vs.v0.JSON, vs.v1.JSON}, Judged: !vs.v0.NullCut && !vs.v1.NullCut}
+	switch {
+	case g.Incon != "":
+		res.Incon = g.Incon
+	case g.Panic != "":
+		res.Fails[ckCrash] = "panic: " + g.Panic + " | " + firstN(libFrames(g.Stack), 400)
+	case g.Crash != "":
+		res.Fails[ckCrash] = g.Crash
+	case g.Watchdog:
+		res.Fails[ckNonterm] = g.Dump
+	case g.MarshalErr != "":
+		res.Fails[ckMeta] = "the generated schema cannot be marshalled to JSON: " + g.MarshalErr
+	default:
+		res.Schema = g.Schema
+		res.Instances = append(res.Instances, vs.deep.JSON) // index 2: names only, never judged
+		return res, true
+	}
+	return res, false
+}
+
+// judge asks the oracle about the document of res and compares the names; the returned text is a
+// harness failure.
+func (ev *evaluator) judge(res *evalResult) string {
+	r := ev.r
+	var insts []json.RawMessage
+	if res.Judged {
+		insts = []json.RawMessage{res.Instances[0], res.Instances[1]}
+	}
+	a, err := ev.oracle.Ask(res.Schema, insts)
+	if err != nil {
+		return fmt.Sprintf("oracle failed on %s/%s: %v", res.ID, res.Style, err)
+	}
+	r.Count("schemas_checked", 1)
+	r.Count("refs_seen", int64(a.RefsTotal))
+	res.Refs = a.RefsTotal
+	if !a.MetaOK {
+		res.Fails[ckMeta] = a.MetaErr
+	}
+	if len(a.DanglingRefs) > 0 {
+		res.Fails[ckRef] = "unresolvable inside the document: " + strings.Join(a.DanglingRefs, " , ")
+	}
+	if res.Judged {
+		r.Count("instances_validated", int64(len(insts)))
+		for i, ir := range a.InstanceResults {
+			if ir.OK {
+				continue
+			}
+			if ir.RefError && len(a.DanglingRefs) > 0 {
+				continue // already reported as a dangling reference
+			}
+			if strings.HasPrefix(ir.Err, "validator error") {
+				continue // the document is not a usable schema (reported as meta-invalid)
+			}
+			res.Fails[ckInst] = fmt.Sprintf("value %d: %s", i, ir.Err)
+			break
+		}
+	} else {
+		r.Count("instance_checks_skipped_no_finite_value", 1)
+	}
+	// names
+	var doc, i1, i2 interface{}
+	if json.Unmarshal(res.Schema, &doc) != nil || json.Unmarshal(res.Instances[0], &i1) != nil || json.Unmarshal(res.Instances[2], &i2) != nil {
+		return ""
+	}
+	var diffs []nameDiff
+	budget := 4000
+	compareNames(doc, doc, i1, i2, "", true, &diffs, &budget)
+	if len(diffs) > 0 {
+		res.NameDiffs = diffs
+		b, _ := json.Marshal(diffs)
+		res.Fails[ckNames] = firstN(string(b), 600)
+	}
+	r.Count("name_sets_compared", 1)
+	return ""
 }
 
 type genOut struct {
@@ -109,7 +310,9 @@ func (ev *evaluator) runGenChunk(cases []genCase, caseTimeoutS int) map[string]*
 		if caseTimeoutS > 0 {
 			env = append(env, fmt.Sprintf("VH_CASE_TIMEOUT=%d", caseTimeoutS))
 		}
-		res := r.SpawnChild("gen", fmt.Sprintf("gen-%d", n%64), nil, env, in.Bytes(), 10*time.Minute)
+		_ = n
+		lane := ev.takeLane() // the output files are named after the lane: never two running children on one lane
+		res := r.SpawnChild("gen", fmt.Sprintf("gen-%d", lane), nil, env, in.Bytes(), 10*time.Minute)
 		var open *genLine
 		progressed := false
 		sc := bufio.NewScanner(bytes.NewReader(res.Stdout()))
@@ -168,8 +371,13 @@ func (ev *evaluator) runGenChunk(cases []genCase, caseTimeoutS int) map[string]*
 			delete(remaining, k)
 			progressed = true
 		}
+		stderrText := ""
 		if !progressed {
-			r.Fatal("generator child produced nothing: %s; stderr: %s", res.Describe(), firstN(res.Stderr(), 600))
+			stderrText = firstN(res.Stderr(), 600)
+		}
+		ev.lanes <- lane
+		if !progressed {
+			r.Fatal("generator child produced nothing: %s; stderr: %s", res.Describe(), stderrText)
 		}
 	}
 	return out
@@ -303,48 +511,21 @@ func (ev *evaluator) Evaluate(cases []evalCase, chunk int) map[string]*evalResul
 		res   *evalResult
 	}
 	var jobs []job
+	valsOf := map[string]*valueSet{}
 	for _, c := range todo {
-		rt, berr := buildType(&c.Spec)
-		if berr != "" {
-			r.Fatal("cannot build type %s (%s): %s", c.ID, goString(&c.Spec), berr)
-		}
-		v0 := populate(rt, 0, 2)
-		v1 := populate(rt, 1, 2)
-		deep := populate(rt, 0, 3)
-		if v0.Err != "" || v1.Err != "" || deep.Err != "" {
-			r.Fatal("encoding/json cannot encode the populated value of %s: %s %s", goString(&c.Spec), v0.Err, v1.Err)
-		}
+		c := c
+		vs := ev.values(&c.Spec)
+		valsOf[c.ID] = vs
 		for _, s := range c.Styles {
 			k := pairKey(c.ID, s)
-			res := &evalResult{ID: c.ID, Style: s, Fails: map[string]string{}, Instances: [][]byte{v0.JSON, v1.JSON}, Judged: !v0.NullCut && !v1.NullCut}
-			results[k] = res
 			g := gens[k]
-			switch {
-			case g == nil:
+			if g == nil {
 				r.Fatal("no generator outcome for %s", k)
-			case g.Incon != "":
-				res.Incon = g.Incon
-				continue
-			case g.Panic != "":
-				res.Fails[ckCrash] = "panic: " + g.Panic + " | " + firstN(libFrames(g.Stack), 400)
-				continue
-			case g.Crash != "":
-				res.Fails[ckCrash] = g.Crash
-				continue
-			case g.Watchdog:
-				res.Fails[ckNonterm] = g.Dump
-				continue
-			case g.MarshalErr != "":
-				res.Fails[ckMeta] = "the generated schema cannot be marshalled to JSON: " + g.MarshalErr
-				continue
 			}
-			res.Schema = g.Schema
-			jobs = append(jobs, job{c: c, style: s, res: res})
-		}
-		// keep the deep instance for the names oracle
-		for _, s := range c.Styles {
-			if res := results[pairKey(c.ID, s)]; res != nil && res.Schema != nil {
-				res.Instances = append(res.Instances, deep.JSON) // index 2: names only, never judged
+			res, ask := fromGen(c.ID, s, g, vs)
+			results[k] = res
+			if ask {
+				jobs = append(jobs, job{c: c, style: s, res: res})
 			}
 		}
 	}
@@ -359,62 +540,68 @@ func (ev *evaluator) Evaluate(cases []evalCase, chunk int) map[string]*evalResul
 		go func(jb job) {
 			defer jwg.Done()
 			defer func() { <-jsem }()
-			res := jb.res
-			var insts []json.RawMessage
-			if res.Judged {
-				insts = []json.RawMessage{res.Instances[0], res.Instances[1]}
-			}
-			a, err := ev.oracle.Ask(res.Schema, insts)
-			if err != nil {
+			if f := ev.judge(jb.res); f != "" {
 				fatalMu.Lock()
-				fatal = fmt.Sprintf("oracle failed on %s/%s: %v", jb.c.ID, jb.style, err)
+				fatal = f
 				fatalMu.Unlock()
-				return
 			}
-			r.Count("schemas_checked", 1)
-			r.Count("refs_seen", int64(a.RefsTotal))
-			res.Refs = a.RefsTotal
-			if !a.MetaOK {
-				res.Fails[ckMeta] = a.MetaErr
-			}
-			if len(a.DanglingRefs) > 0 {
-				res.Fails[ckRef] = "unresolvable inside the document: " + strings.Join(a.DanglingRefs, " , ")
-			}
-			if res.Judged {
-				r.Count("instances_validated", int64(len(insts)))
-				for i, ir := range a.InstanceResults {
-					if ir.OK {
-						continue
-					}
-					if ir.RefError && len(a.DanglingRefs) > 0 {
-						continue // already reported as a dangling reference
-					}
-					if strings.HasPrefix(ir.Err, "validator error") {
-						continue // the document is not a usable schema (reported as meta-invalid)
-					}
-					res.Fails[ckInst] = fmt.Sprintf("value %d: %s", i, ir.Err)
-					break
-				}
-			} else if !res.Judged {
-				r.Count("instance_checks_skipped_no_finite_value", 1)
-			}
-			// names
-			var doc, i1, i2 interface{}
-			if json.Unmarshal(res.Schema, &doc) != nil || json.Unmarshal(res.Instances[0], &i1) != nil || json.Unmarshal(res.Instances[2], &i2) != nil {
-				return
-			}
-			var diffs []nameDiff
-			budget := 4000
-			compareNames(doc, doc, i1, i2, "", true, &diffs, &budget)
-			if len(diffs) > 0 {
-				res.NameDiffs = diffs
-				b, _ := json.Marshal(diffs)
-				res.Fails[ckNames] = firstN(string(b), 600)
-			}
-			r.Count("name_sets_compared", 1)
 		}(jb)
 	}
 	jwg.Wait()
+	if fatal != "" {
+		r.Fatal("%s", fatal)
+	}
+
+	// 3. a verdict has to be a verdict about the TYPE. The batch children generate many types one after
+	// the other in one process; a failing document is therefore generated once more by a fresh process
+	// for that type alone. When the two differ, the stage verdict is the one on the fresh document, and
+	// the batch document is kept as a finding of its own (generation depends on what was generated before).
+	posOf := map[string]int{}
+	for i, c := range todo {
+		posOf[c.ID] = i
+	}
+	var rwg sync.WaitGroup
+	for _, c := range todo {
+		for _, s := range c.Styles {
+			k := pairKey(c.ID, s)
+			res := results[k]
+			if ev.noRecheck || res == nil || res.Incon != "" || len(res.Fails) == 0 || res.failed(ckNonterm) {
+				continue // (a watchdog verdict has been confirmed alone above)
+			}
+			rwg.Add(1)
+			go func(c evalCase, s, k string, res *evalResult) {
+				defer rwg.Done()
+				fg := ev.Fresh(&c.Spec, s)
+				r.Count("failing_verdicts_regenerated_alone", 1)
+				if fg.Incon != "" || sameOutcome(fg, gens[k]) {
+					return
+				}
+				alone, ask := fromGen(c.ID, s, fg, valsOf[c.ID])
+				if ask {
+					if f := ev.judge(alone); f != "" {
+						fatalMu.Lock()
+						fatal = f
+						fatalMu.Unlock()
+						return
+					}
+				}
+				pos := posOf[c.ID]
+				lo := pos - pos%chunk
+				var before []TSpec
+				for _, p := range todo[lo:pos] {
+					before = append(before, p.Spec)
+				}
+				before = append(before, c.Spec) // its own other styles
+				ev.histMu.Lock()
+				ev.hist = append(ev.hist, batchFinding{Spec: c.Spec, Style: s, Batch: res, Alone: alone, Before: before})
+				ev.histMu.Unlock()
+				gmu.Lock()
+				results[k] = alone
+				gmu.Unlock()
+			}(c, s, k, res)
+		}
+	}
+	rwg.Wait()
 	if len(todo) > 50 {
 		fmt.Fprintf(os.Stderr, "[c18] evaluate %d cases: gen %.1fs populate %.1fs oracle+names %.1fs\n", len(todo), tGen.Sub(tStart).Seconds(), tPop.Sub(tGen).Seconds(), time.Since(tPop).Seconds())
 	}
